@@ -13,10 +13,15 @@ Inductive zop :=
 | ZF (batch : list (Z * Z * Z))        (* sequence, position, token *)
 | ZC (src dst len : Z)
 | ZR (q b e : Z)
-| ZQ (q p : Z).
+| ZQ (q p : Z)
+| ZV (batch : list (Z * Z * Z)).       (* StartForward(reserve = true) + Put on every layer, graph reserved only *)
+
+Definition conv_batch (l : list (Z * Z * Z)) : list entry :=
+  map (fun x => let '(q, p, t) := x in (Z.to_nat q, p, Z.to_N t)) l.
 
 Definition to_op (o : zop) : op :=
   match o with
+  | ZV _ => CanResume 0 0
   | ZF l => Forward (map (fun x => let '(q, p, t) := x in (Z.to_nat q, p, Z.to_N t)) l)
   | ZC s d len => Copy (Z.to_nat s) (Z.to_nat d) len
   | ZR q b e => Remove (Z.to_nat q) b e
@@ -85,11 +90,17 @@ Definition eqb_state (c : cache) (o : zobs) : bool :=
 
 (** index of the first step at which model and observation differ; None = they agree on the whole history.
     A panic ends a history (the harness stops there too). *)
+Definition zstep (fx : bool) (c : cache) (o : zop) : cache * out :=
+  match o with
+  | ZV l => reserve_forward c (conv_batch l)
+  | _ => step fx c (to_op o)
+  end.
+
 Fixpoint first_diff (fx : bool) (c : cache) (i : nat) (steps : list (zop * zobs)) : option nat :=
   match steps with
   | [] => None
   | (o, b) :: t =>
-      let '(c', r) := step fx c (to_op o) in
+      let '(c', r) := zstep fx c o in
       match r with
       | OPanic => match o_out b with BPanic => None | _ => Some i end
       | _ => if eqb_out r (o_out b) && eqb_state c' b then first_diff fx c' (S i) t else Some i
@@ -119,7 +130,7 @@ Definition where_diff (fx : bool) (g : zcfg) (steps : list (zop * zobs)) : optio
 Fixpoint trace (fx : bool) (c : cache) (ops : list zop) : list (out * cache) :=
   match ops with
   | [] => []
-  | o :: t => let '(c', r) := step fx c (to_op o) in (r, c') :: match r with OPanic => [] | _ => trace fx c' t end
+  | o :: t => let '(c', r) := zstep fx c o in (r, c') :: match r with OPanic => [] | _ => trace fx c' t end
   end.
 
 Definition show_state (c : cache) :=
